@@ -223,6 +223,22 @@ Section Instr.
   Qed.
 End Instr.
 
+Lemma simple_width : forall op k d, simple_eff op = Some (k, d) -> opwidth op = 0.
+Proof. intros op k d E. destruct op; cbn in E; try discriminate E; reflexivity. Qed.
+
+Lemma fused_width : forall op mth, assoc opcode_eqb op fused_dispatch = Some mth -> opwidth op = 4.
+Proof. intros op mth E. destruct op; cbn in E; try discriminate E; reflexivity. Qed.
+
+(* bs is an opcode byte followed by as many operand bytes as the opcode has *)
+Definition ibytes (bs : list Z) : Prop :=
+  exists op, nth_error bs 0 = Some (byte_of_opcode op) /\ zlength bs = 1 + opwidth op.
+
+Lemma ibytes_1 : forall op, opwidth op = 0 -> ibytes [byte_of_opcode op].
+Proof. intros op W. exists op. split; [reflexivity|]. rewrite W. reflexivity. Qed.
+
+Lemma ibytes_3 : forall op b1 b2, opwidth op = 2 -> ibytes [byte_of_opcode op; b1; b2].
+Proof. intros op b1 b2 W. exists op. split; [reflexivity|]. rewrite W. reflexivity. Qed.
+
 (** * 2. Certificate fragments *)
 
 (* (pc, width of the instruction, mode, lower bound) *)
@@ -398,6 +414,18 @@ Section Final.
     apply H. exact Hin.
   Qed.
 
+  (* the width of the instruction the final code has at pc, as the machine decodes it *)
+  Definition instr_width (pc : Z) : option Z :=
+    match fbyte pc with
+    | Some b => match opcode_of_byte b with Some op => Some (1 + opwidth op) | None => None end
+    | None => None
+    end.
+
+  Lemma instr_width_bytes : forall pc bs, ibytes bs -> fbyte pc = nth_error bs 0 -> instr_width pc = Some (zlength bs).
+  Proof.
+    intros pc bs (op & E & W) B. unfold instr_width. rewrite B, E, opcode_of_byte_of_opcode, W. reflexivity.
+  Qed.
+
   (* the certificate does not claim more at the entry's pc than the entry does *)
   Definition gle (x : centry) : Prop := succ_ok G (e_m x) (e_pc x) (e_h x) = true.
 
@@ -417,7 +445,7 @@ Section Final.
     (~ brk (c_loops st) (e_pc x) -> forall i, e_pc x <= i < e_pc x + e_w x -> agree st i) ->
     (brk (c_loops st) (e_pc x) -> pend_ok mc LH (e_pc x)) ->
     e_pc x + e_w x <= zlength F ->
-    iok (e_pc x) (e_m x) (e_h x).
+    iok (e_pc x) (e_m x) (e_h x) /\ instr_width (e_pc x) = Some (e_w x).
 
   Lemma ent_ok_keeps : forall st st' mc LH x,
     (forall i, e_pc x <= i < e_pc x + e_w x -> byte_at st' i = byte_at st i) ->
@@ -451,16 +479,21 @@ Section Final.
   Qed.
 
   (* an instruction appended to the buffer: its entry is acceptable if it is acceptable given all its bytes *)
-  Lemma ent_ok_emit : forall st st' bs mc LH m h, app_of st st' bs -> code_inv st ->
+  Lemma ent_ok_emit : forall st st' bs mc LH m h, app_of st st' bs -> code_inv st -> ibytes bs ->
     ((forall k, (k < length bs)%nat -> fbyte (code_len st + Z.of_nat k) = nth_error bs k) ->
      code_len st + zlength bs <= zlength F -> iok (code_len st) m h) ->
     ent_ok st' mc LH (code_len st, zlength bs, m, h).
   Proof.
-    intros st st' bs mc LH m h A Hinv H A1 A2 A3 A4. cbn [e_pc e_w e_m e_h fst snd] in *.
-    apply H; [|exact A4]. intros k Hk.
-    assert (N : ~ brk (c_loops st') (code_len st)).
-    { destruct A as [_ A]. rewrite A. intros X. destruct (bi_at _ _ Hinv _ X) as (_ & Y & _). lia. }
-    rewrite <- (app_of_bytes _ _ _ _ A Hk). apply (A2 N). unfold zlength. lia.
+    intros st st' bs mc LH m h A Hinv IB H A1 A2 A3 A4. cbn [e_pc e_w e_m e_h fst snd] in *.
+    assert (HB : forall k, (k < length bs)%nat -> fbyte (code_len st + Z.of_nat k) = nth_error bs k).
+    { intros k Hk.
+      assert (N : ~ brk (c_loops st') (code_len st)).
+      { destruct A as [_ A]. rewrite A. intros X. destruct (bi_at _ _ Hinv _ X) as (_ & Y & _). lia. }
+      rewrite <- (app_of_bytes _ _ _ _ A Hk). apply (A2 N). unfold zlength. lia. }
+    split; [apply H; [exact HB|exact A4]|].
+    apply instr_width_bytes; [exact IB|].
+    destruct IB as (op & E & W). assert (L : (0 < length bs)%nat) by (apply nth_error_Some; rewrite E; discriminate).
+    pose proof (HB 0%nat L) as X. rewrite Z.add_0_r in X. exact X.
   Qed.
 End Final.
 
@@ -637,12 +670,17 @@ Section Final2.
   (* entries from the bytes now in the buffer *)
   Lemma ent_ok_bytes : forall st bs pc mc LH m h,
     (forall k, (k < length bs)%nat -> byte_at st (pc + Z.of_nat k) = nth_error bs k) ->
-    ~ brk (c_loops st) pc ->
+    ~ brk (c_loops st) pc -> ibytes bs ->
     (has_bytes pc bs -> pc + zlength bs <= zlength F -> iok pc m h) ->
     ent_ok F K G st mc LH (pc, zlength bs, m, h).
   Proof.
-    intros st bs pc mc LH m h B N H A1 A2 A3 A4. cbn [e_pc e_w e_m e_h fst snd] in *.
-    apply H; [|exact A4]. intros k Hk. rewrite <- (B k Hk). apply (A2 N). unfold zlength. lia.
+    intros st bs pc mc LH m h B N IB H A1 A2 A3 A4. cbn [e_pc e_w e_m e_h fst snd] in *.
+    assert (HB : has_bytes pc bs).
+    { intros k Hk. rewrite <- (B k Hk). apply (A2 N). unfold zlength. lia. }
+    split; [apply H; [exact HB|exact A4]|].
+    apply instr_width_bytes; [exact IB|].
+    destruct IB as (op & E & W). assert (L : (0 < length bs)%nat) by (apply nth_error_Some; rewrite E; discriminate).
+    pose proof (HB 0%nat L) as X. rewrite Z.add_0_r in X. exact X.
   Qed.
 End Final2.
 
